@@ -426,39 +426,123 @@ def check_stop_invariant(prog: Program, res: Result) -> None:
     loops = [n for n in ast.walk(fi.node) if isinstance(n, (ast.For, ast.While))]
     if not loops:
         raise AnalysisError("_color_refine: loop vanished")
-    allowed = {"np", "atom_hash", "n_atoms", "max_iter", "new_n_classes",
-               "n_atom_classes", "sm_generator", "itertools", "graph",
-               "range", "next", "counter", "_", "generator", "atom_labels"}
+    # definitions of the locals (flow insensitive)
+    defs: dict[str, list[ast.AST]] = {}
+    for node in ast.walk(fi.node):
+        if isinstance(node, ast.Assign):
+            for t in node.targets:
+                if isinstance(t, ast.Name):
+                    defs.setdefault(t.id, []).append(node.value)
+                elif isinstance(t, ast.Tuple):
+                    for e in t.elts:
+                        if isinstance(e, ast.Name):
+                            defs.setdefault(e.id, []).append(node.value)
+        elif isinstance(node, ast.AnnAssign) and isinstance(
+                node.target, ast.Name) and node.value is not None:
+            defs.setdefault(node.target.id, []).append(node.value)
+        elif isinstance(node, ast.AugAssign) and isinstance(
+                node.target, ast.Name):
+            defs.setdefault(node.target.id, []).append(node.value)
+        elif isinstance(node, ast.For):
+            for e in ast.walk(node.target):
+                if isinstance(e, ast.Name):
+                    defs.setdefault(e.id, []).append(node.iter)
+        elif isinstance(node, ast.NamedExpr) and isinstance(
+                node.target, ast.Name):
+            defs.setdefault(node.target.id, []).append(node.value)
+    generators = {p for p in fi.params() if p == "generator"}
+
+    def is_colours(e, seen=()) -> bool:
+        """e is (derived elementwise from) an array of colours drawn from the
+        refinement generator."""
+        if isinstance(e, ast.Call) and call_name(e) == "next":
+            return True
+        if isinstance(e, ast.Name):
+            if e.id in seen:
+                return False
+            return any(is_colours(d, seen + (e.id,))
+                       for d in defs.get(e.id, []))
+        return False
+
+    COUNT_ATTR = ("shape", "size")
+
+    def raw_colour_uses(e, seen=()) -> list[str]:
+        """Sub-expressions through which colour VALUES (not just the number
+        of distinct colours / of atoms) reach e."""
+        if isinstance(e, ast.Constant):
+            return []
+        # number of classes / atoms: np.unique(c).shape[0], len(np.unique(c)),
+        # len(set(c)), c.shape[0], len(c), c.size
+        if isinstance(e, ast.Call) and call_name(e) == "len" and \
+                len(e.args) == 1:
+            a0 = e.args[0]
+            if is_colours(a0):
+                return []
+            if isinstance(a0, ast.Call) and call_name(a0) in (
+                    "np.unique", "numpy.unique", "set", "frozenset") and \
+                    len(a0.args) >= 1 and not a0.keywords:
+                return []
+        if isinstance(e, ast.Attribute) and e.attr in COUNT_ATTR:
+            v = e.value
+            if is_colours(v):
+                return []
+            if isinstance(v, ast.Call) and call_name(v) in (
+                    "np.unique", "numpy.unique") and not v.keywords:
+                return []
+        if is_colours(e):
+            return [norm(e, 60)]
+        if isinstance(e, ast.Name):
+            if e.id in seen:
+                return []
+            out = []
+            for d in defs.get(e.id, []):
+                out += raw_colour_uses(d, seen + (e.id,))
+            return out
+        out = []
+        for c in ast.iter_child_nodes(e):
+            if isinstance(c, (ast.expr_context, ast.operator, ast.cmpop,
+                              ast.boolop, ast.unaryop)):
+                continue
+            out += raw_colour_uses(c, seen)
+        return out
+
+    def free_leaves(e, seen=()) -> set[str]:
+        out = set()
+        for x in ast.walk(e):
+            if isinstance(x, ast.Name) and isinstance(x.ctx, ast.Load):
+                if x.id in defs:
+                    if x.id not in seen:
+                        for d in defs[x.id]:
+                            out |= free_leaves(d, seen + (x.id,))
+                else:
+                    out.add(x.id)
+        return out
+
+    allowed_leaves = set(fi.params()) | {"np", "numpy", "itertools", "range",
+                                         "next", "len", "set", "frozenset",
+                                         "int", "min", "max"}
     n = 0
     for loop in loops:
         for node in ast.walk(loop):
             if isinstance(node, ast.If) and any(
                     isinstance(b, (ast.Break, ast.Return)) for b in node.body):
                 n += 1
-                deps = du.deps(node.test)
                 inst = f"{fi.short}: exit on `{norm(node.test)}`"
-                classes = any(
-                    isinstance(x, ast.Call) and call_name(x) == "np.unique"
-                    for d in du.dep_nodes(node.test) for x in ast.walk(d))
-                bad = deps - allowed
-                # colours may enter the test only through the class count
-                for d in du.dep_nodes(node.test):
-                    for x in ast.walk(d):
-                        if isinstance(x, ast.Name) and x.id == "atom_hash" \
-                                and isinstance(x.ctx, ast.Load):
-                            chain = [a for a in ancestors(x)]
-                            inside = any(isinstance(a, ast.Call) and call_name(a)
-                                         in ("np.unique", "next") for a in chain)
-                            is_def = isinstance(parent(x), ast.Assign)
-                            if not inside and not is_def and any(
-                                    a is node.test for a in [x] + chain):
-                                bad = bad | {"atom_hash (raw colours)"}
-                if bad or not classes:
+                raw = raw_colour_uses(node.test)
+                odd = sorted(free_leaves(node.test) - allowed_leaves)
+                if raw:
                     res.bad("R-STOP-INV", inst, fi.loc(node),
-                            f"{inst}: depends on {sorted(bad) or 'no class count'}")
+                            f"{inst}: depends on the colour values themselves "
+                            f"({sorted(set(raw))}), not only on the number of "
+                            "colour classes / atoms: hash values differ "
+                            "between runs and numberings of equal molecules")
+                elif odd:
+                    res.unrecognised("R-STOP-INV", inst, fi.loc(node),
+                                     f"the exit test reads {odd}, which this "
+                                     "rule cannot classify")
                 else:
                     res.ok("R-STOP-INV", inst, fi.loc(node))
-    res.need("R-STOP-INV", n, 2, "loop exits")
+    res.need("R-STOP-INV", n, 1, "loop exits")
     # the array returned is the last one drawn from the generator
     rets = [norm(r.value) for r in ast.walk(fi.node) if isinstance(r, ast.Return)]
     inst = f"{fi.short}: returns the last refined colours"
